@@ -1584,6 +1584,105 @@ func (p *pkgInfo) entriesOf(recv string) []*fnode {
 	return out
 }
 
+// publishSites: the statements that publish the completion of the handshake (the atomic store that makes
+// handshakeComplete() true: handshakeStatus := 1 on the stream stack, hsState := stateFinished on the datagram
+// stack), one entry per enclosing function: its name and the number of uses of the connection - a field selected
+// from a *Conn, or a method called on a *Conn or on a handshake-state struct - in the statements that come
+// textually after the store in that function.  The handshake-phase exemption of the lockset check rests on that
+// number being 0: nothing of the connection is touched without its locks once other goroutines may see the
+// handshake as complete.
+func (p *pkgInfo) publishSites() [][2]string {
+	isConnPtr := func(e ast.Expr) bool {
+		t := p.info.TypeOf(e)
+		if t == nil {
+			return false
+		}
+		_, n := namedName(deref(t))
+		return n == "Conn"
+	}
+	isStatePtr := func(e ast.Expr) bool {
+		t := p.info.TypeOf(e)
+		if t == nil {
+			return false
+		}
+		_, n := namedName(deref(t))
+		return n == "Conn" || strings.HasSuffix(n, "HandshakeState")
+	}
+	isPublish := func(c *ast.CallExpr) bool {
+		sel, ok := c.Fun.(*ast.SelectorExpr)
+		if !ok || len(c.Args) == 0 {
+			return false
+		}
+		mentions := func(e ast.Expr, name string) bool {
+			found := false
+			ast.Inspect(e, func(n ast.Node) bool {
+				if id, ok := n.(*ast.Ident); ok && id.Name == name {
+					found = true
+				}
+				return true
+			})
+			return found
+		}
+		// atomic.StoreUint32(&c.handshakeStatus, 1)
+		if x, ok := sel.X.(*ast.Ident); ok && x.Name == "atomic" && strings.HasPrefix(sel.Sel.Name, "Store") && len(c.Args) == 2 {
+			if lit, ok := c.Args[1].(*ast.BasicLit); ok && lit.Value == "1" && mentions(c.Args[0], "handshakeStatus") {
+				return true
+			}
+		}
+		// c.hsState.Store(int32(stateFinished))
+		if sel.Sel.Name == "Store" && mentions(sel.X, "hsState") && mentions(c.Args[0], "stateFinished") {
+			return true
+		}
+		return false
+	}
+	var out [][2]string
+	for _, f := range p.files {
+		for _, d := range f.Decls {
+			fd, ok := d.(*ast.FuncDecl)
+			if !ok || fd.Body == nil {
+				continue
+			}
+			var first token.Pos
+			ast.Inspect(fd.Body, func(n ast.Node) bool {
+				if c, ok := n.(*ast.CallExpr); ok && isPublish(c) && (first == token.NoPos || c.End() < first) {
+					first = c.End()
+				}
+				return true
+			})
+			if first == token.NoPos {
+				continue
+			}
+			uses := 0
+			ast.Inspect(fd.Body, func(n ast.Node) bool {
+				if n == nil || n.Pos() < first {
+					return true
+				}
+				switch x := n.(type) {
+				case *ast.CallExpr:
+					if isPublish(x) {
+						return false // a second publishing store (another branch) is not a use
+					}
+					if sel, ok := x.Fun.(*ast.SelectorExpr); ok && isStatePtr(sel.X) {
+						uses++
+					}
+				case *ast.SelectorExpr:
+					if isConnPtr(x.X) {
+						uses++
+					}
+				}
+				return true
+			})
+			name := p.name + "." + fd.Name.Name
+			if fd.Recv != nil && len(fd.Recv.List) == 1 {
+				name = p.name + "." + recvTypeName(fd.Recv.List[0].Type) + "." + fd.Name.Name
+			}
+			out = append(out, [2]string{name, fmt.Sprint(uses)})
+		}
+	}
+	sort.Slice(out, func(i, j int) bool { return out[i][0] < out[j][0] })
+	return out
+}
+
 // findHandshakeTargets: methods assigned to a field named handshakeFn anywhere in the package
 func (p *pkgInfo) findHandshakeTargets() {
 	seen := map[*fnode]bool{}
@@ -1663,6 +1762,7 @@ func main() {
 	}
 	nwarn := 0
 	var names []string
+	var pubs []string
 	for _, s := range specs {
 		p, err := loadPkg(*repo, s.pkg, s.roots, imp)
 		if err != nil {
@@ -1689,6 +1789,13 @@ func main() {
 		}
 		p.emitCoq(&sb, classes, structs)
 		names = append(names, "sk_"+s.pkg)
+		if s.pkg != "pa" {
+			var items []string
+			for _, ps := range p.publishSites() {
+				items = append(items, fmt.Sprintf("(%s, %s)", coqString(ps[0]), ps[1]))
+			}
+			pubs = append(pubs, fmt.Sprintf("(%s, [%s])", coqString(s.pkg), strings.Join(items, "; ")))
+		}
 		for _, fn := range p.order {
 			nwarn += len(fn.warn)
 			if *verbose {
@@ -1700,6 +1807,7 @@ func main() {
 		fmt.Fprintf(os.Stderr, "skel: %s: %d functions, %d blocking-call kinds\n", s.pkg, len(p.order), len(p.blocks))
 	}
 	fmt.Fprintf(&sb, "\nDefinition skeletons : list skeleton := [%s].\n", strings.Join(names, "; "))
+	fmt.Fprintf(&sb, "\n(* per package: the functions that publish the completion of the handshake, with the number of uses of the\n   connection in the statements after the publishing store *)\nDefinition publish_sites : list (string * list (string * N)) :=\n  [%s].\n", strings.Join(pubs, ";\n   "))
 	for _, wn := range imp.warns {
 		nwarn++
 		if *verbose {
